@@ -66,15 +66,17 @@ def visit (o : Opts) (es : List Entry) (fuel : Nat) (e : Entry) (real shown : St
 
 /-- Where a root given with `.`, `..`, doubled or trailing separators leads (through real
     directories: `..` is taken lexically), and how it is printed: as given, without trailing
-    separators and without one leading `./`. -/
+    separators and without leading `./` (with the separators that follow it: `.//d` is `d`). -/
 def resolveRoot (root : Str) : Str × Str :=
   let comps := (splitOn 47 root).filter fun c => !c.isEmpty && c != [46]
   let path := comps.foldl (fun (acc : Str) c => if c == [46, 46] then parentOf acc else if acc.isEmpty then c else acc ++ [47] ++ c) []
   let trimmed := (root.reverse.dropWhile (· == 47)).reverse
-  let shown := match trimmed with
-    | 46 :: 47 :: rest => rest
-    | t => t
-  (path, shown)
+  -- `trimPath`: every leading `./` goes, together with the separators that follow it
+  let rec strip (t : Str) (fuel : Nat) : Str :=
+    match fuel, t with
+    | fuel + 1, 46 :: 47 :: rest => strip (rest.dropWhile (· == 47)) fuel
+    | _, t => t
+  (path, strip trimmed trimmed.length)
 
 /-- `readFiles` for one root (`[46]` = "." = the tree root). -/
 def walk (o : Opts) (es : List Entry) (root : Str) : List Str :=
